@@ -25,7 +25,10 @@ class B(Component):
 
 
 class C(Component):
-    pass
+    """A container-like user component: falsy while empty (truthiness must not matter to the framework)."""
+
+    def __len__(self):
+        return 0
 
 
 class Z(Component):      # a type nobody ever carries
@@ -396,7 +399,7 @@ def random_run(rng, *, kinds=("plain",), n_models=2, n_ids=3, length=40, mods="c
         cls, ext, wrap = rng.choice(WORLD_MENU[rng.choice(kinds)])
         worlds[m] = (cls, ext, wrap)
         do(["model", m, cls, ext, wrap])
-    ids = ["x", "y", "z", "w"][:n_ids]
+    ids = ["x", "y", "z", "w", "v", "u"][:n_ids]
     objs = {m: [] for m in worlds}
     serial = {}
     cser = [0]
@@ -434,7 +437,7 @@ def random_run(rng, *, kinds=("plain",), n_models=2, n_ids=3, length=40, mods="c
         op = rng.choices(names, wts)[0]
         a = rng.choice(objs[m])
         if op == "agent":
-            if len(objs[m]) < 6:
+            if len(objs[m]) < 8:
                 new_agent(m)
         elif op == "attach":
             T = rng.choice(LISTED)
@@ -574,3 +577,31 @@ def program_from_walk(walk, probe=None, salt=0):
         else:
             raise AssertionError("unknown spec action " + name)
     return prog
+
+
+def carrier_programs(n_agents, cls_ext_wrap=("plain", [0, 0, 0], False), limit=None, rng=None):
+    """n agents that all carry A (every second one also C, every third B) join; then they leave in every order
+    (each permutation one program), the first leaver re-joins at the end.  Listing order must follow joining order."""
+    import itertools
+    cls, ext, wrap = cls_ext_wrap
+    ids = ["x", "y", "z", "w", "v", "u"][:n_agents]
+    perms = list(itertools.permutations(range(n_agents)))
+    if limit and len(perms) > limit:
+        perms = rng.sample(perms, limit)
+    out = []
+    for perm in perms:
+        prog = [["model", "m1", cls, ext, wrap], ["model", "m2", "plain", [0, 0, 0], False]]
+        ser = 0
+        for k, i in enumerate(ids):
+            prog.append(["agent", [i, 1], "m1", None])
+            for T, every in (("A", 1), ("C", 2), ("B", 3)):
+                if k % every == 0:
+                    ser += 1
+                    prog.append(["attach", [i, 1], T, ser, False])
+        for k, i in enumerate(ids):
+            prog.append(["join", [i, 1], None if cls == "plain" else [k % max(ext[0], 1), 0, 0]])
+        for k in perm:
+            prog.append(["leave", "m1", ids[k]])
+        prog.append(["join", [ids[perm[0]], 1], None if cls == "plain" else [0, 0, 0]])
+        out.append(prog)
+    return out
